@@ -10,6 +10,17 @@ case $tree in
   *) SAN="-O2" ;;
 esac
 CXXFLAGS="-std=c++17 -g0 $SAN -fno-omit-frame-pointer -fopenmp -pthread -DFMT_SHARED -DHAVE_CONFIG_H=1 -DOPM_COMMON_VERIF -I$T -I$T/include -I/repo -isystem /root/miniconda/include -Wall -Wno-unused-function"
+stale() {   # stale <object> <source>
+  local o=$1 a=$2 dep
+  [ -f "$o" ] && [ -f "$o.d" ] || return 0
+  [ "$a" -nt "$o" ] && return 0
+  for dep in $(sed -e 's/^[^:]*://' -e 's/\\$//' "$o.d"); do
+    case $dep in /usr/*|/root/miniconda/*) continue ;; esac
+    [ -e "$dep" ] || return 0
+    [ "$dep" -nt "$o" ] && return 0
+  done
+  return 1
+}
 objs=()
 extra=()
 seen_dd=0
@@ -18,9 +29,10 @@ for a in "$@"; do
   if [ $seen_dd = 1 ]; then extra+=("$a"); continue; fi
   o=$T/hobj/$(echo "$a" | sed 's#/#_#g; s#\.cpp$#.o#')
   objs+=("$o")
-  # recompile when the source, any /verif header, or the library's generated headers are newer
-  if [ ! -f "$o" ] || [ "$a" -nt "$o" ] || [ -n "$(find /verif/simcore /verif/scen -name '*.hpp' -newer "$o" | head -1)" ]; then
-    g++ $CXXFLAGS -c "$a" -o "$o" &
+  # recompile when the source or ANY header it includes is newer than the object - /verif's own headers and /repo's
+  # (a header-only change of the library, e.g. a serializeOp member list, is compiled into the harness, not into the .a)
+  if stale "$o" "$a"; then
+    g++ $CXXFLAGS -MMD -MF "$o.d" -c "$a" -o "$o" &
   fi
 done
 wait
